@@ -285,7 +285,7 @@ def rs_sorted(ctx):
     from .common import interp_rule
     repo = ctx.repo
     interp_rule(ctx, 'Rs.sorted-abscissa', [f for c_ in repo.module('gnpy.core.science_utils').classes.values() for f in c_.all_funcs()], 'the NLI of the channels that were not computed would be interpolated wrongly')
-    ctx.need('Rs.sorted-abscissa', 2)
+    ctx.need('Rs.sorted-abscissa', 1)
 
 
 def r6_applied(ctx):
